@@ -657,6 +657,17 @@ impl Interp {
                 self.note_consumed(&src);
                 self.post(op, &src)?
             }
+            Expr::Sum(op, elem, it) => {
+                let src = self.expr(it, env)?;
+                self.note_consumed(&src);
+                match (self.post(op, &src)?, *op, elem) {
+                    // no elements: the neutral element of the element type
+                    (RVal::Int(_), "$+", Ty::Float) => RVal::Float(0.0),
+                    (RVal::Int(_), "$*", Ty::Float) => RVal::Float(1.0),
+                    (RVal::Int(_), "$+", Ty::Str) => RVal::Str("".into()),
+                    (v, ..) => v,
+                }
+            }
             Expr::Len(x) => match self.expr(x, env)? {
                 RVal::Arr(xs) => RVal::Int(xs.len() as i64),
                 RVal::Str(s) => RVal::Int(s.chars().count() as i64),
